@@ -241,6 +241,12 @@ def quant_sub(chk, rng, w, wid, mode, plan=None, tvar=None, ops=OPS):
         wit = dict(info=info, obs=obs, steps=steps)
         if plan is not None:
             wit["declarations"] = plan
+        if r.get("k") == "E" and st.get("a") == 0 and \
+                op in ("rdiv", "pown") and \
+                r["cls"] in ("ZeroDivisionError", "ValueError"):
+            # 1 / 0 or 0 ** -n after the operand was rounded to zero
+            chk.count("division by a zero amount (control, not judged)")
+            return
         if r.get("k") == "E" and r["cls"] == "ZeroDivisionError" and \
                 (st.get("b") == 0 or op == "div"):
             chk.count("division by a zero amount (control, not judged)")
